@@ -162,13 +162,15 @@ def padder [Mul K] [OfNat K 1] (sh : List Nat) (d0 : Nat) (newShape : List Nat) 
     if n = N then none else some (pad1 n N central))
 
 /-- one axis of RegriddingOperator: `n` old pixels → `N ≤ n` new ones; position `j·n/N`, base index clamped
-    to `n-2`, linear weights.  `q a b` is the scalar `a / b`. (`n ≥ 2`; see design.d/C02.md for `n = 1`.) -/
+    to `[0, n-2]`, neighbour clamped to `n-1` (an axis of length 1 has only pixel 0), linear weights.
+    `q a b` is the scalar `a / b`. -/
 def regrid1 [Sub K] [OfNat K 1] (q : Nat → Nat → K) (n N : Nat) : Coo K :=
   ofRows N n fun j =>
     let b := min (n - 2) (j * n / N)
+    let b1 := min (n - 1) (b + 1)
     -- frac = j·n/N − b
     let frac : K := q (j * n - b * N) N
-    [(b, 1 - frac), (b + 1, frac)]
+    [(b, 1 - frac), (b1, frac)]
 
 def regridding [Mul K] [Sub K] [OfNat K 1] (q : Nat → Nat → K) (sh : List Nat) (d0 : Nat) (newShape : List Nat) :
     Coo K :=
